@@ -314,6 +314,11 @@ def run_case(seed, tier, rec, st):
         tg = TypeGen(fam, rng, allow_any=False, allow_literal=False, mixins=(base,),
                      dc_config_fn=lambda r: {"code_generation_options": "[ADD_DIALECT_SUPPORT]"})
         tg.allow_self = False
+        # frozen=True only forbids re-binding the attributes: the containers an instance holds stay mutable and are copied
+        # like anyone else's.  Every class of the case is frozen (a frozen class cannot mix with ordinary ones in one hierarchy)
+        frozen = rng.random() < 0.15
+        if frozen:
+            fam.default_dc_args = {"frozen": True}
         x = rng.random()
         if x < 0.25:
             N = []
@@ -348,8 +353,19 @@ def run_case(seed, tier, rec, st):
             return
         # dataclass wrappers: Config.dialect, call dialect, format mixins
         wname = tg.fresh("W")
-        fam.add({"k": "dc", "name": wname, "bases": [], "mixin": base, "fields": [{"n": "x", "t": t}],
-                 "config": {"code_generation_options": "[ADD_DIALECT_SUPPORT]"}}, tg.value_maker)
+        wshape = rng.choice(["plain", "plain", "slots", "lazy", "child"])
+        wcfg = {"code_generation_options": "[ADD_DIALECT_SUPPORT]"}
+        wd = {"k": "dc", "name": wname, "bases": [], "mixin": base, "fields": [{"n": "x", "t": t}], "config": wcfg}
+        if wshape == "slots":
+            wd["dc_args"] = dict({"slots": True}, **({"frozen": True} if frozen else {}))
+        elif wshape == "lazy":
+            wcfg["lazy_compilation"] = "True"
+        elif wshape == "child":
+            # the member is declared by a parent, the wrapper only inherits it
+            pname = tg.fresh("WP")
+            fam.add(dict(wd, name=pname, config=dict(wcfg)), tg.value_maker)
+            wd = {"k": "dc", "name": wname, "bases": [pname], "mixin": None, "fields": [], "config": wcfg}
+        fam.add(wd, tg.value_maker)
         W = fam.get(wname)
         vg = Gen(fam, rng)
         nvals = 5 if tier == "quick" else 8
@@ -365,6 +381,8 @@ def run_case(seed, tier, rec, st):
             w = W(v)
             hist = [("to_dict", lambda: w.to_dict(), w, Share(fam, [])), ("to_dict(dialect=DN)", lambda: w.to_dict(dialect=DN), w, share)]
             if meth:
+                # the real encoder of the format: only "the object is as it was" can be observed (the output is text/bytes)
+                hist.append((f"{meth}-real", lambda: (getattr(w, meth)(), None)[1], w, None))
                 hist.append((f"{meth}-tree", lambda: getattr(w, meth)(encoder=ident), w, fmt_share))
                 hist.append((f"{meth}-tree(dialect=DN)", lambda: getattr(w, meth)(encoder=ident, dialect=DN), w, Share(fam, N, natives)))
             rng.shuffle(hist)      # call history: formats and dialects in random order on the same class
@@ -374,13 +392,21 @@ def run_case(seed, tier, rec, st):
                 rec.evaluation()
                 snap = fingerprint(arg)
                 a = containers(arg)
+                raised = None
                 try:
                     out = fn()
                 except Exception as ex:
                     rec.count("encode_raised")
-                    continue
+                    raised = type(ex).__name__
                 if fingerprint(arg) != snap:
-                    rec.violation(f"{name.split('(')[0]}:argument-mutated", {"type": tast.render(t), "value": common.short(arg)}, {"N": N})
+                    # also when the call failed (a value the format cannot carry): the object is still as it was
+                    rec.violation(f"{name.split('(')[0]}:argument-mutated", {"type": tast.render(t), "value_before": common.short(snap, 300), "value_after": common.short(arg, 300),
+                                                                                "raised": raised, "family": fam.to_json()}, {"N": N, "route": name, "format": fmt})
+                    continue
+                if raised is not None:
+                    continue
+                if model is None:
+                    rec.count("real_format_encoder_left_the_object_alone")
                     continue
                 b = containers(out)
                 shared = set(a) & set(b)
@@ -400,7 +426,7 @@ def run_case(seed, tier, rec, st):
                     rec.violation(f"{name.split('-tree')[0] if 'tree' in name else name}:{kind}",
                                   {"type": tast.render(t), "N": sorted(model.N), "value": common.short(arg, 300), "result": common.short(out, 300),
                                    "extra_shared": extra, "not_shared_but_predicted": missing, "call_order": order, "family": fam.to_json()},
-                                  {"N": sorted(model.N), "kind": kind, "route": name, "format": fmt,
+                                  {"N": sorted(model.N), "kind": kind, "route": name, "format": fmt, "frozen": frozen, "wrapper": wshape,
                                    "union_copy_shortcut": common.union_copy_fact(fam, t),
                                    "encoded_only_basic": __import__("vfw.ref", fromlist=["only_basic"]).only_basic(out)})
             # ---- decode: result shares nothing with the input, input unchanged
